@@ -694,7 +694,7 @@ func (up *SyncClient) syncNode(parent, id string) error {
 	for _, p := range nodeLocal.Points {
 		found := false
 		for i, pUp := range nodeUp.Points {
-			if p.IsMatch(pUp.Type, pUp.Key) {
+			if p.Type == pUp.Type && p.Key == pUp.Key {
 				found = true
 				upstreamProcessed[i] = true
 				if p.Time.After(pUp.Time) {
@@ -740,7 +740,7 @@ func (up *SyncClient) syncNode(parent, id string) error {
 		for _, p := range nodeLocal.EdgePoints {
 			found := false
 			for i, pUp := range nodeUp.EdgePoints {
-				if p.IsMatch(pUp.Type, pUp.Key) {
+				if p.Type == pUp.Type && p.Key == pUp.Key {
 					found = true
 					upstreamProcessed[i] = true
 					if p.Time.After(pUp.Time) {
